@@ -14,8 +14,8 @@
 (*               Eof (reader saw EOF, cmd.Wait, final display, finishChan <- true), Reaped (both reapChan received)   *)
 (*   ticker      TickDisplay (partial output rendered while the command runs; sets `rendered`)                        *)
 (*   watcher     WatchEnter (reaches its select), the receiving half of a try-send (cancel: kill at once if output    *)
-(*               was rendered, else wait previewCancelWait; kill: at once), WatchTimer (delayed kill), WatchFinish,   *)
-(*               WatchCtx (ctx.Done: leaves WITHOUT killing)                                                          *)
+(*               was rendered, else wait previewCancelWait; kill: at once), WatchTimer (delay over), WatchKill        *)
+(*               (util.KillCommand), WatchFinish, WatchCtx (ctx.Done: leaves WITHOUT killing)                         *)
 (*   command     CmdOutput, CmdExit (finite commands only); it dies at once when the group is SIGKILLed               *)
 (*                                                                                                                    *)
 (* The try-send is modelled exactly: it is taken iff the watcher is in its select (wst = "selecting"), otherwise it   *)
@@ -23,7 +23,8 @@
 (*   LostCancel      cancel dropped while a command is about to be started or its watcher has not reached the select  *)
 (*                   (also: the previewer takes the older request between the terminal's try-send and its Set)        *)
 (*   LostKillAtExit  kill dropped at exit in those states or while the watcher sits in its previewCancelWait delay    *)
-(*   ExitBeforeKill  the process exits (EvtQuit is set BEFORE killPreview()) before the kill was even attempted       *)
+(*   ExitBeforeKill  the process exits (EvtQuit is set BEFORE killPreview()) before the kill was attempted, or after  *)
+(*                   the watcher took it but before it got to call KillCommand (nothing waits for the watcher)        *)
 (* The properties are proved on the behaviours in which no deviation fired (dev = {}); MC_Preview_dev.cfg checks the  *)
 (* strict versions and keeps TLC's counterexamples.                                                                   *)
 EXTENDS Integers, Sequences, FiniteSets, TLC
@@ -39,7 +40,7 @@ VARIABLES focus, q, sel, tver, visible, acts,     \* terminal state (t.cy's item
           uipc, ureq,                             \* continuation of a critical section: idle | set | quit2 | quit3 | quit4
           pbox, pquit,                            \* previewBox: the pending request (or None), reqQuit
           pst, pver, preq,                        \* previewer: wait | picked | running | reaping | stopped
-          wst,                                    \* watcher: none | starting | selecting | delaying | done
+          wst,                                    \* watcher: none | starting | selecting | delaying | killing | done
           cst, ckind, cout, rendered, fin,        \* command: none | running | exited | killed; output written; finishChan
           dbox, shown,                            \* reqBox[reqPreviewDisplay] (one slot) and what the preview window holds
           quitting, ctxDone, procExited,
@@ -66,16 +67,16 @@ Init == /\ focus = 1 /\ q = 0 /\ sel = 0 /\ tver = 0 /\ visible = TRUE /\ acts =
         /\ alive = {} /\ lastStarted = None /\ dev = {}
 
 -------------------------------------------------------------------------------
-(* The non-blocking send on the unbuffered killChan.  Receiver side folded in: util.KillCommand is SIGKILL to the  *)
-(* process group, the command is dead at once.                                                                      *)
+(* The non-blocking send on the unbuffered killChan.  The receiving watcher goes on to call util.KillCommand        *)
+(* (SIGKILL to the process group: the command is dead at once) in a step of its own (WatchKill).                     *)
 InFlightForCancel == pst = "picked" \/ wst = "starting"
 InFlightForKill   == pst = "picked" \/ wst \in {"starting", "delaying"}
 Killed == /\ cst' = (IF cst = "running" THEN "killed" ELSE cst) /\ alive' = {} /\ wst' = "done"
 
 TrySend(immediately) ==
     IF wst = "selecting"
-    THEN /\ IF immediately \/ rendered THEN Killed ELSE (wst' = "delaying" /\ UNCHANGED <<cst, alive>>)
-         /\ UNCHANGED dev
+    THEN /\ wst' = (IF immediately \/ rendered THEN "killing" ELSE "delaying")
+         /\ UNCHANGED <<cst, alive, dev>>
     ELSE /\ UNCHANGED <<wst, cst, alive>>          \* dropped
          /\ dev' = dev \cup (IF immediately THEN (IF InFlightForKill THEN {"LostKillAtExit"} ELSE {})
                              ELSE (IF InFlightForCancel THEN {"LostCancel"} ELSE {}))
@@ -131,7 +132,8 @@ ExitCtx == /\ uipc = "quit3" /\ ~procExited
                           lastStarted, dev>>
 ProcExit == /\ quitting /\ ~procExited
             /\ procExited' = TRUE
-            /\ dev' = dev \cup (IF uipc = "quit2" /\ (alive # {} \/ pst = "picked") THEN {"ExitBeforeKill"} ELSE {})
+            /\ dev' = dev \cup (IF (uipc = "quit2" /\ (alive # {} \/ pst = "picked")) \/ (wst = "killing" /\ alive # {})
+                               THEN {"ExitBeforeKill"} ELSE {})
             /\ UNCHANGED <<uiVars, rendVars, uipc, ureq, pbox, pquit, pvVars, wst, cmdVars, dbox, shown, quitting, ctxDone, alive,
                            lastStarted>>
 
@@ -169,9 +171,11 @@ WatchEnter == /\ wst = "starting" /\ ~procExited /\ wst' = "selecting"
               /\ UNCHANGED <<uiVars, rendVars, uipc, ureq, pbox, pquit, pvVars, cmdVars, dbox, shown, endVars, alive, lastStarted, dev>>
 WatchFinish == /\ wst \in {"selecting", "delaying"} /\ fin /\ ~procExited /\ wst' = "done"
                /\ UNCHANGED <<uiVars, rendVars, uipc, ureq, pbox, pquit, pvVars, cmdVars, dbox, shown, endVars, alive, lastStarted, dev>>
-WatchTimer == /\ wst = "delaying" /\ ~procExited /\ Killed           \* previewCancelWait elapsed
-              /\ UNCHANGED <<uiVars, rendVars, uipc, ureq, pbox, pquit, pvVars, ckind, cout, rendered, fin, dbox, shown, endVars,
-                             lastStarted, dev>>
+WatchTimer == /\ wst = "delaying" /\ ~procExited /\ wst' = "killing"           \* previewCancelWait elapsed
+              /\ UNCHANGED <<uiVars, rendVars, uipc, ureq, pbox, pquit, pvVars, cmdVars, dbox, shown, endVars, alive, lastStarted, dev>>
+WatchKill == /\ wst = "killing" /\ ~procExited /\ Killed                       \* util.KillCommand
+             /\ UNCHANGED <<uiVars, rendVars, uipc, ureq, pbox, pquit, pvVars, ckind, cout, rendered, fin, dbox, shown, endVars,
+                            lastStarted, dev>>
 WatchCtx == /\ wst = "selecting" /\ ctxDone /\ ~procExited /\ wst' = "done"       \* leaves without killing
             /\ UNCHANGED <<uiVars, rendVars, uipc, ureq, pbox, pquit, pvVars, cmdVars, dbox, shown, endVars, alive, lastStarted, dev>>
 
@@ -187,7 +191,7 @@ CmdExit == /\ cst = "running" /\ ckind = "finite" /\ cout
 -------------------------------------------------------------------------------
 User == Move \/ EditQuery \/ Toggle \/ TogglePreview \/ Exit
 System == Render \/ RefreshSet \/ Display \/ ExitKill \/ ExitCtx \/ ProcExit \/ Pick \/ Start \/ Eof \/ Reaped \/ TickDisplay
-          \/ WatchEnter \/ WatchFinish \/ WatchTimer \/ WatchCtx \/ CmdOutput \/ CmdExit
+          \/ WatchEnter \/ WatchFinish \/ WatchTimer \/ WatchKill \/ WatchCtx \/ CmdOutput \/ CmdExit
 Next == User \/ System
 Spec == Init /\ [][Next]_vars /\ WF_vars(System)
 
@@ -195,7 +199,7 @@ Spec == Init /\ [][Next]_vars /\ WF_vars(System)
 (* Properties (C20) *)
 TypeOK == /\ uipc \in {"idle", "set", "quit2", "quit3", "quit4"}
           /\ pst \in {"wait", "picked", "running", "reaping", "stopped"}
-          /\ wst \in {"none", "starting", "selecting", "delaying", "done"}
+          /\ wst \in {"none", "starting", "selecting", "delaying", "killing", "done"}
           /\ cst \in {"none", "running", "exited", "killed"}
           /\ dev \subseteq {"LostCancel", "LostKillAtExit", "ExitBeforeKill"}
 (* superseded commands are terminated before the next one starts: at most one process group alive at any time *)
